@@ -59,4 +59,19 @@ theorem anyCallable_true (c : Ctor) (args : List Val) (h : anyCallable c args = 
       obtain ⟨cr, hcr, hacc, _⟩ := run_first inst binst _ args none i hr
       exact ⟨i, cr, hcr, hacc, by simp [ctorCall, hr]⟩
 
+theorem string_no_fault (args : List Val) : ctorCall stringCtor args ≠ .fault := by
+  rcases ctorCall_cases stringCtor args ⟨_, rfl⟩ with h | ⟨i, cr, hcr, hacc, hcall⟩
+  · rw [h]; simp
+  · rw [hcall]
+    obtain ⟨⟨hreq, _, _⟩, _⟩ := hacc
+    match i, hcr with
+    | 0, hcr =>
+      simp [stringCtor] at hcr; subst hcr
+      simp only [paramsOf, List.filterMap, BOp.param?] at hreq
+      have h0 := hreq 0 (.req, .any) (by simp) rfl
+      match args, h0 with
+      | [v], _ => simp only [stringCtor]; split <;> simp
+      | _ :: _ :: _, _ => simp [stringCtor]
+    | n + 1, hcr => simp [stringCtor] at hcr
+
 end Pcore.Dispatch.Alpha
